@@ -312,6 +312,21 @@ func (s *Solver) Check() Result {
 			default:
 				s.NUnk++
 			}
+		case strings.HasPrefix(line, "(error") && strings.Contains(line, "canceled"):
+			// the per-query timeout fired inside push / assert processing: the process state is not to be
+			// trusted any more. Start a fresh one with the same assertion stack and decide this query one-shot.
+			s.restart()
+			s.Fallbacks++
+			r, _ = s.oneShot("")
+			s.lastFallback = true
+			switch r {
+			case Sat:
+				s.NSat++
+			case Unsat:
+				s.NUnsat++
+			default:
+				s.NUnk++
+			}
 		case strings.HasPrefix(line, "(error"):
 			panic(engineAbort{"solver error: " + line})
 		default:
